@@ -5579,10 +5579,33 @@ impl RelationalEngine {
             } else {
                 continue;
             };
-            self.btree_index_add(table, column, &value, engine_row_id)?;
+            if let Err(e) = self.btree_index_add(table, column, &value, engine_row_id) {
+                // A build refused half-way (ordered-index budget, storage error) must not
+                // leave an index that knows only some of the rows: range queries would then
+                // silently miss the others.
+                self.remove_btree_index_state(table, column);
+                return Err(e);
+            }
         }
 
         Ok(())
+    }
+
+    /// Removes the catalogue entry, the in-memory tree and the stored entries of an ordered
+    /// index whose build failed. Caller holds the DDL lock.
+    fn remove_btree_index_state(&self, table: &str, column: &str) {
+        let entries_removed = {
+            let key = (table.to_string(), column.to_string());
+            let mut indexes = self.btree_indexes.write();
+            indexes.remove(&key).map_or(0, |btree| btree.len())
+        };
+        if entries_removed > 0 {
+            Self::saturating_sub_atomic(&self.btree_entry_count, entries_removed);
+        }
+        for key in self.store.scan(&Self::btree_prefix(table, column)) {
+            let _ = self.delete_maybe_durable(&key);
+        }
+        let _ = self.delete_maybe_durable(&Self::btree_meta_key(table, column));
     }
 
     /// Returns true if a B-tree index exists on the column.
